@@ -277,6 +277,8 @@ def run(ch, params, decoded=False):
     n = len(classes)
     sched_a = draw_schedule(ch, n, params, "a")
     sched_b = draw_schedule(ch, n, params, "b")
+    file_pairs = [(i, a_) for i, c in enumerate(classes) for a_, pk in c["pairs"].items() if pk == 2]
+    fault = file_pairs[ch.draw(len(file_pairs), "fault_target")] if file_pairs and ch.chance(1, 3, "file_fault") else None
     tmpdir = tempfile.mkdtemp(prefix="djc-c16-")
     violations = []
     stats = {"classes": n}
@@ -292,6 +294,26 @@ def run(ch, params, decoded=False):
                 break
             copies.append(real)
         observed = [{}, {}]
+        # Fault (copy 0 only): one *_file asset is missing when its class is first touched - the access may fail - and
+        # is back afterwards. From then on copy 0 must behave like the never-faulted copy 1: an operation may fail,
+        # but no later access may return wrong data (narrow relaxation: only the faulted accesses are exempt).
+        if not violations and fault is not None:
+            ci, attr = fault
+            path = os.path.join(tmpdir, content(ci, attr, "file_name"))
+            if copies[0][ci] is not None and os.path.exists(path):
+                os.rename(path, path + ".away")
+                failed = 0
+                for sub in range(n):
+                    cls = copies[0][sub]
+                    if cls is None or ci not in mro_of(classes, sub):
+                        continue
+                    try:
+                        read(cls, attr, 0)
+                    except Exception:
+                        failed += 1
+                os.rename(path + ".away", path)
+                stats["fault:FILE_MISSING_AT_FIRST_ACCESS"] = 1
+                stats["probe:access_failed_under_fault"] = 1 if failed else 0
         if not violations:
             for copy, schedule in ((0, sched_a), (1, sched_b)):
                 for ci, attr, inst in schedule:
@@ -372,10 +394,11 @@ def run(ch, params, decoded=False):
         stats["probe:rejected_double_definition"] = sum(1 for c in classes if any(pk == 3 for pk in c["pairs"].values()))
     finally:
         shutil.rmtree(tmpdir, ignore_errors=True)
-    key = hashlib.blake2b(json.dumps([classes, sched_a, sched_b]).encode(), digest_size=8).hexdigest()
+    key = hashlib.blake2b(json.dumps([classes, sched_a, sched_b, fault]).encode(), digest_size=8).hexdigest()
     out = {"violations": violations, "key": key,
            "nontrivial": n >= 2 and any(c["media"] and (c["media"]["js"] or c["media"]["css"]) for c in classes) and sched_a != sched_b,
            "stats": stats, "digest": key}
     if decoded or violations:
-        out["decoded"] = {"classes": classes, "schedule_a": sched_a, "schedule_b": sched_b}
+        out["decoded"] = {"classes": classes, "schedule_a": sched_a, "schedule_b": sched_b,
+                          "fault_file_missing_at_first_access": fault}
     return out
